@@ -46,9 +46,9 @@ type c17Fail struct {
 }
 
 type c17Fails struct {
-	mu  sync.Mutex
-	l   []c17Fail
-	n   map[string]int
+	mu   sync.Mutex
+	l    []c17Fail
+	n    map[string]int
 	cnt  int64 // spec failures
 	ccnt int64 // correspondence failures
 }
